@@ -44,7 +44,7 @@ theorem eok_touch {cfg : Cfg} {now ns nr : Nat} {e : Sess} (ini : Bool) (h : EOk
     (hg : Good cfg now e) (hr : e.removed = false) : EOk cfg now ns nr (touchE now cfg.timeout ini e) := by
   obtain ⟨⟨h1, h2, h3, h4, h5, h6, h7, h8, h9⟩, h10⟩ := h
   have g6 := hg.no_timeout
-  rcases e with ⟨id, owner, refs, timer, closing, removed, inMap, pending, initialized, creating, busy, initBusy, posts, idleSince, closeErr⟩
+  rcases e with ⟨id, owner, refs, timer, closing, removed, inMap, pending, initialized, creating, busy, initBusy, posts, idleSince, closeErr, upl⟩
   simp only [] at *
   subst hr
   cases ini <;> cases timer <;> (try by_cases h0 : refs = 0) <;>
@@ -53,14 +53,15 @@ theorem eok_touch {cfg : Cfg} {now ns nr : Nat} {e : Sess} (ini : Bool) (h : EOk
 theorem touchE_fields (now T : Nat) (ini : Bool) (e : Sess) :
     (touchE now T ini e).id = e.id ∧ (touchE now T ini e).owner = e.owner ∧ (touchE now T ini e).removed = e.removed ∧
     (touchE now T ini e).closing = e.closing ∧
-    (touchE now T ini e).timer = (match e.timer with | .nil => .nil | t => if e.refs = 0 then .armed (now + T) else t) := by
-  rcases e with ⟨id, owner, refs, timer, closing, removed, inMap, pending, initialized, creating, busy, initBusy, posts, idleSince, closeErr⟩
+    (touchE now T ini e).timer = (match e.timer with | .nil => .nil | t => if e.refs = 0 then .armed (now + T) else t) ∧
+    (touchE now T ini e).upl = e.upl := by
+  rcases e with ⟨id, owner, refs, timer, closing, removed, inMap, pending, initialized, creating, busy, initBusy, posts, idleSince, closeErr, upl⟩
   cases ini <;> cases timer <;> (try by_cases h0 : refs = 0) <;> simp_all [touchE]
 
 theorem rel_touch {cfg : Cfg} {now ns nr : Nat} {e : Sess} {a : MSess} (ini : Bool) (h : ERel cfg ns nr e a)
     (hk : EOk cfg now ns nr e) (hg : Good cfg now e) (hr : e.removed = false) :
     ERelPre cfg ns nr (touchE now cfg.timeout ini e) (if a.life = .live then mTouch now a else a) := by
-  obtain ⟨f1, f2, f3, f4, f5⟩ := touchE_fields now cfg.timeout ini e
+  obtain ⟨f1, f2, f3, f4, f5, f6⟩ := touchE_fields now cfg.timeout ini e
   by_cases hl : a.life = .live
   · rw [if_pos hl]
     have hml : (mTouch now a).life = .live := by unfold mTouch; split <;> exact hl
@@ -73,13 +74,15 @@ theorem rel_touch {cfg : Cfg} {now ns nr : Nat} {e : Sess} {a : MSess} (ini : Bo
       · intro _; exact hml
     · intro _
       have := h.cnt hl
+      rw [f6]
       unfold mTouch; split <;> exact this
-    · intro _ hns hT
-      have hap : a.posts = 0 := by rw [(h.cnt hl).1, hns]
+    · intro _ hns hu hT
+      rw [f6] at hu
+      have hap : a.posts = 0 := by rw [(h.cnt hl).1, hns, hu]
       have hid : (mTouch now a).idleSince = now := by simp [mTouch, hap]
       rw [hid, f5]
       have htn : e.timer ≠ .nil := fun hx => hT ((hk.tmr hr).mp hx)
-      have hrf : e.refs = 0 := by rw [hg.refs_posts htn, hk.posts, hns]
+      have hrf : e.refs = 0 := by rw [hg.refs_posts htn, hk.posts, hns, hu]
       cases ht : e.timer with
       | nil => exact absurd ht htn
       | stopped => simp [hrf]
@@ -150,26 +153,26 @@ theorem eokq_pend {cfg : Cfg} {now ns nr : Nat} {e : Sess} (h : EOk cfg now ns n
   obtain ⟨⟨h1, h2, h3, h4, h5, h6, h7, h8, h9⟩, h10⟩ := h
   have g2 : ∀ d, e.timer = .armed d → e.refs = 0 := fun d hd => (hg.armed d hd).1
   clear hg
-  rcases e with ⟨id, owner, refs, timer, closing, removed, inMap, pending, initialized, creating, busy, initBusy, posts, idleSince, closeErr⟩
+  rcases e with ⟨id, owner, refs, timer, closing, removed, inMap, pending, initialized, creating, busy, initBusy, posts, idleSince, closeErr, upl⟩
   simp only [] at *
   subst hr; subst hc
   cases timer <;> (try by_cases h0 : refs = 0) <;>
     (refine ⟨⟨?_, ?_, ?_, ?_, ?_, ?_, ?_, ?_, ?_⟩, ?_⟩ <;> simp_all [pendE, Timer.isArmed] <;> (try omega))
 
 theorem pendE_fields (e : Sess) : (pendE e).id = e.id ∧ (pendE e).owner = e.owner ∧ (pendE e).removed = e.removed ∧
-    (pendE e).closing = e.closing := by
-  rcases e with ⟨id, owner, refs, timer, closing, removed, inMap, pending, initialized, creating, busy, initBusy, posts, idleSince, closeErr⟩
+    (pendE e).closing = e.closing ∧ (pendE e).upl = e.upl := by
+  rcases e with ⟨id, owner, refs, timer, closing, removed, inMap, pending, initialized, creating, busy, initBusy, posts, idleSince, closeErr, upl⟩
   cases timer <;> simp [pendE]
 
 theorem rel_pend {cfg : Cfg} {ns nr : Nat} {e : Sess} {a : MSess} (h : ERel cfg ns nr e a)
     (hr : e.removed = false) (hc : e.closing = false) : ERelPre cfg (ns + 1) nr (pendE e) (mPend a) := by
-  obtain ⟨f1, f2, f3, f4⟩ := pendE_fields e
+  obtain ⟨f1, f2, f3, f4, f6⟩ := pendE_fields e
   have hl := h.life_live hr hc
   refine ⟨?_, ?_, ?_, ?_, ?_⟩
   · rw [f2]; exact h.owner
   · intro hd; simp [mPend, hl] at hd
   · rw [f3, f4]; simp [mPend, hl, hr, hc]
-  · intro _; have := h.cnt hl; simp [mPend, this.1, this.2]
+  · intro _; have := h.cnt hl; rw [f6]; simp [mPend, this.1, this.2]; omega
   · intro _ hns; omega
 
 /-! ### (3)(4)(5) a parked handler is released, its POST is abandoned, a handler without POST returns -/
@@ -179,7 +182,7 @@ theorem eokq_release {cfg : Cfg} {now ns nr : Nat} {e : Sess} (h : EOk cfg now n
   obtain ⟨⟨h1, h2, h3, h4, h5, h6, h7, h8, h9⟩, h10⟩ := h
   have g1 := hg.refs_posts
   have g6 := hg.no_timeout
-  rcases e with ⟨id, owner, refs, timer, closing, removed, inMap, pending, initialized, creating, busy, initBusy, posts, idleSince, closeErr⟩
+  rcases e with ⟨id, owner, refs, timer, closing, removed, inMap, pending, initialized, creating, busy, initBusy, posts, idleSince, closeErr, upl⟩
   simp only [] at *
   subst hr
   cases timer <;> (try by_cases h0 : refs - 1 = 0) <;>
@@ -190,7 +193,7 @@ theorem eokq_abandon {cfg : Cfg} {now ns nr : Nat} {e : Sess} (h : EOk cfg now n
   obtain ⟨⟨h1, h2, h3, h4, h5, h6, h7, h8, h9⟩, h10⟩ := h
   have g1 := hg.refs_posts
   have g6 := hg.no_timeout
-  rcases e with ⟨id, owner, refs, timer, closing, removed, inMap, pending, initialized, creating, busy, initBusy, posts, idleSince, closeErr⟩
+  rcases e with ⟨id, owner, refs, timer, closing, removed, inMap, pending, initialized, creating, busy, initBusy, posts, idleSince, closeErr, upl⟩
   simp only [] at *
   subst hr
   cases timer <;> (try by_cases h0 : refs - 1 = 0) <;>
@@ -205,16 +208,16 @@ theorem eokq_runDone {cfg : Cfg} {now ns nr : Nat} {e : Sess} (h : EOk cfg now n
 theorem endE_fields (now T : Nat) (e : Sess) : (endE now T e).id = e.id ∧ (endE now T e).owner = e.owner ∧
     (endE now T e).removed = e.removed ∧ (endE now T e).closing = e.closing ∧
     (endE now T e).timer = (match e.timer with | .nil => .nil | t => if e.refs - 1 = 0 then .armed (now + T) else t) ∧
-    (endE now T e).busy = e.busy ∧ (endE now T e).initBusy = e.initBusy := by
-  rcases e with ⟨id, owner, refs, timer, closing, removed, inMap, pending, initialized, creating, busy, initBusy, posts, idleSince, closeErr⟩
+    (endE now T e).busy = e.busy ∧ (endE now T e).initBusy = e.initBusy ∧ (endE now T e).upl = e.upl := by
+  rcases e with ⟨id, owner, refs, timer, closing, removed, inMap, pending, initialized, creating, busy, initBusy, posts, idleSince, closeErr, upl⟩
   cases timer <;> (try by_cases h0 : refs - 1 = 0) <;> simp_all [endE]
 
 /-- the monitor's bookkeeping of a POST that ends (`p` completion) against `endPOST` -/
 theorem rel_endE {cfg : Cfg} {now ns nr nr' : Nat} {e : Sess} {a : MSess}
-    (h : ERelPre cfg ns nr' e a) (hcnt : a.life = .live → a.running = nr) (hp : e.posts = ns)
+    (h : ERelPre cfg ns nr' e a) (hcnt : a.life = .live → a.running = nr) (hp : e.posts = ns + e.upl)
     (hrp : e.timer ≠ .nil → e.refs = e.posts) (htm : e.removed = false → (e.timer = .nil ↔ cfg.timeout = 0)) (hns : ns ≠ 0) :
     ERelPre cfg (ns - 1) nr (endE now cfg.timeout e) (mPostDone now a) := by
-  obtain ⟨f1, f2, f3, f4, f5, _, _⟩ := endE_fields now cfg.timeout e
+  obtain ⟨f1, f2, f3, f4, f5, _, _, f8⟩ := endE_fields now cfg.timeout e
   have hlife : (mPostDone now a).life = a.life := by unfold mPostDone; split <;> rfl
   refine ⟨?_, ?_, ?_, ?_, ?_⟩
   · rw [f2, ← h.owner]; unfold mPostDone; split <;> rfl
@@ -223,11 +226,12 @@ theorem rel_endE {cfg : Cfg} {now ns nr nr' : Nat} {e : Sess} {a : MSess}
   · rw [hlife]; intro hl
     have c := h.cnt hl
     have r := hcnt hl
+    rw [f8]
     unfold mPostDone
     split
     · rename_i hle; exact ⟨by simp; omega, by simpa using r⟩
     · rename_i hle; exact ⟨by simp; omega, by simpa using r⟩
-  · rw [hlife]; intro hl hz hT
+  · rw [hlife, f8]; intro hl hz hu hT
     have c := h.cnt hl
     have hr := (h.live.mp hl).1
     have hap : a.posts ≤ 1 := by omega
@@ -388,8 +392,10 @@ theorem rel_tick {cfg : Cfg} {now ns nr : Nat} {e : Sess} {a : MSess} (n : Nat) 
         have hrf := (hg.armed d ht).1
         have htn : e.timer ≠ .nil := by rw [ht]; simp
         have hT : cfg.timeout ≠ 0 := fun hx => htn ((hk.tmr hr).mpr hx)
-        have hns : ns = 0 := by rw [← hk.posts, ← hg.refs_posts htn]; exact hrf
-        have hid := h.idle hl hns hT
+        have hnu : ns = 0 ∧ e.upl = 0 := by
+          have h1 := hk.posts; have h2 := hg.refs_posts htn; omega
+        have hns : ns = 0 := hnu.1
+        have hid := h.idle hl hns hnu.2 hT
         rw [ht] at hid
         have hdd : d = a.idleSince + cfg.timeout := by cases hid; rfl
         rw [settleE_fire hr ht hd]
@@ -398,7 +404,7 @@ theorem rel_tick {cfg : Cfg} {now ns nr : Nat} {e : Sess} {a : MSess} (n : Nat) 
             (expire cfg (now + n) a).owner = a.owner := by
           unfold expire
           have h1 : (a.life == Life.live) = true := by simp [hl]
-          have h2 : (a.posts == 0) = true := by simp [hcnt.1, hns]
+          have h2 : (a.posts == 0) = true := by simp [hcnt.1, hns, hnu.2]
           have h3 : decide (cfg.timeout > 0) = true := by simp; omega
           have h4 : decide (a.idleSince + cfg.timeout ≤ now + n) = true := by simp; omega
           simp [h1, h2, h3, h4]
@@ -424,8 +430,8 @@ theorem rel_tick {cfg : Cfg} {now ns nr : Nat} {e : Sess} {a : MSess} (n : Nat) 
           by_cases hp : a.posts = 0
           · by_cases hT : cfg.timeout = 0
             · simp [hT]
-            · have hns : ns = 0 := by rw [← hcnt.1]; exact hp
-              have hid := h.idle hl hns hT
+            · have hnu : ns = 0 ∧ e.upl = 0 := by have := hcnt.1; omega
+              have hid := h.idle hl hnu.1 hnu.2 hT
               have := hnd _ hid
               have h4 : decide (a.idleSince + cfg.timeout ≤ now + n) = false := by simp; omega
               simp [h4]
